@@ -419,6 +419,9 @@ def check_divisors(ctx, fi, cls, rule="C06.R7"):
         conj = []
         for e in p.events:
             if e.depth:
+                if e.kind == "ASSUME":       # a guard established inside an inlined helper holds for the rest of the path
+                    c = e["cond"]
+                    conj.extend(c[2] if c[0] == "bool" and c[1] == "and" else (c,))
                 continue
             for v in e.a.values():
                 if not isinstance(v, tuple):
